@@ -8,9 +8,9 @@ package c19
 
 import (
 	"fmt"
-	"sync/atomic"
 	"math/big"
 	"strings"
+	"sync/atomic"
 	"testing"
 
 	"github.com/consensys/gnark/constraint"
@@ -24,8 +24,9 @@ import (
 
 const workers = 8
 
-// hangState: 0 no predicted hang re-run yet, 3 re-run in progress, 1 confirmed, 2 refuted
+// hangState: 0 no predicted hang re-run yet, 3 re-run in progress, 1 confirmed, 2 refuted (probe unreliable)
 var hangState atomic.Int32
+var hangAttempts atomic.Int32
 
 func TestC19(t *testing.T) {
 	r := vcore.Start(t, "C19")
@@ -270,23 +271,26 @@ func runTopoOnCurve(r *vcore.Run, t *topo, k *curveKit) {
 				r.Eval(key+"/hang", true)
 				r.Count("hang.predicted-by-probe", 1)
 				vals := genValues(r.Rand("hang/"+key), k.mod, len(cA.Vals), "small")
-				note := "not re-run in a child process (confirmed earlier in this run)"
-				switch {
-				case t.N <= 8:
-					if hangState.CompareAndSwap(0, 3) {
-						confirmed, n := confirmHang(r, t, k, b, vals)
-						note = n
-						if confirmed {
-							r.Count("hang.confirmed-in-child-process", 1)
-							hangState.Store(1)
-						} else {
-							r.Count("hang.not-confirmed-in-child-process", 1)
-							hangState.Store(2)
-						}
+				note := "not re-run in a child process"
+				if t.N <= 8 && hangAttempts.Load() < 3 && hangState.CompareAndSwap(0, 3) {
+					hangAttempts.Add(1)
+					verdict, n := confirmHang(r, t, k, b, vals)
+					note = n
+					r.Set("hang_rerun_in_child_process", map[string]any{"topology": t.String(), "curve": k.name, "builder": b, "probe": detail, "verdict": verdict, "observation": n})
+					switch verdict {
+					case 1:
+						r.Count("hang.confirmed-in-child-process", 1)
+						hangState.Store(1)
+					case -1:
+						r.Count("hang.refuted-in-child-process", 1)
+						hangState.Store(2)
+					default:
+						r.Count("hang.child-process-did-not-reach-solve", 1)
+						hangState.Store(0)
 					}
 				}
 				if hangState.Load() == 2 {
-					r.Inconclusive("probe predicted a non-returning Solve, child process did not confirm: " + note)
+					r.Inconclusive("probe predicted a non-returning Solve, but Solve returned in a child process")
 				} else {
 					r.Violation("solver/gkr-solving-hint-does-not-terminate", detail+"; "+note, replayOf(t, k, b, vals, map[string]any{"probe": detail}))
 				}
